@@ -125,7 +125,11 @@ def run(job):
     job.bound = (f"{n_hist} random histories over {len(OPS)} operations and "
                  f"{len(DECLS)} declarations, each compared with the "
                  f"canonical history (declare all, then each operation once) "
-                 f"in fresh interpreters")
+                 f"in fresh interpreters; {6 if n_hist == 6 else 16} random "
+                 f"histories of 90..140 steps over {len(OPS_FIXED) + len(OPS_MODE)} "
+                 f"operations of every kind and switches of the default "
+                 f"rounding mode, each result compared with the operation "
+                 f"alone in a fresh interpreter")
     ops = [("op", l, e) for l, e in OPS]
     decls = [("decl", d) for d in DECLS]
     canonical = run_script(script(root, decls + ops))
@@ -165,3 +169,128 @@ def run(job):
                     before[label] == "UndefinedResultError")
                 job.case("history/early-value", (h, i, label), ok, got,
                          final[label])
+    general_histories(job, root)
+
+
+# ---------------------------------------------------------------------------
+# general history independence: every operation gives, at any point of any
+# history of other operations and switches of the default rounding mode, the
+# result it gives as the only operation of a fresh interpreter
+PRELUDE2 = r'''
+import json, sys
+from fractions import Fraction
+from decimalfp import Decimal, ROUNDING, set_dflt_rounding_mode
+from quantity import *
+from quantity.predefined import *
+from quantity.money import Money, ExchangeRate, MoneyConverter
+sys.path.insert(0, %(root)r)
+from runtime import oracle as O
+EUR = Money.register_currency("EUR"); USD = Money.register_currency("USD")
+JPY = Money.register_currency("JPY")
+OUT = []
+def ser(r):
+    if isinstance(r, Quantity):
+        return [type(r).__name__, r.unit.symbol, str(O.F(r.amount))]
+    if isinstance(r, ExchangeRate):
+        return ["rate", r.unit_currency.symbol, r.term_currency.symbol, str(O.F(r.rate))]
+    if isinstance(r, bool) or r is None:
+        return r
+    if isinstance(r, (tuple, list)):
+        return [ser(x) for x in r]
+    if isinstance(r, Unit):
+        return ["unit", r.symbol]
+    return ["number", str(O.F(r))]
+def ev(label, fn):
+    try:
+        OUT.append([label, ser(fn())])
+    except Exception as e:
+        OUT.append([label, "EXC " + type(e).__name__])
+'''
+
+OPS_FIXED = [
+    "(Fraction(7, 2) * KILOMETRE).convert(METRE)", "(2 * TONNE).convert(KILOGRAM)",
+    "(5 * MILLIMETRE).convert(METRE)", "(1 * METRE).convert(MILLIMETRE)",
+    "(1 * ARE).convert(SQUARE_CENTIMETRE)", "(1 * ACRE).convert(SQUARE_METRE)",
+    "(1 * DECIMETRE).convert(INCH)", "(1 * DAY).convert(MINUTE)",
+    "(36 * KILOMETRE_PER_HOUR).convert(METRE_PER_SECOND)",
+    "(10 * METRE_PER_SECOND).convert(KILOMETRE_PER_HOUR)",
+    "(2 * TONNE).convert(METRE)", "(5 * KILOHERTZ).convert(SECOND)",
+    "(3 * KILOWATT).convert(KILOGRAM)", "(1 * GRAM).convert(SQUARE_METRE)",
+    "(1 * METRE) > (5 * MILLIMETRE)", "(5 * MILLIMETRE) < (1 * METRE)",
+    "(-5 * KILOGRAM) < (-5 * GRAM)", "(1 * LITRE) == (1 * CUBIC_DECIMETRE)",
+    "hash(1 * KILOMETRE) == hash(1000 * METRE)",
+    "(1 * METRE) + (1 * MILLIMETRE)", "(1 * MILLIMETRE) + (1 * METRE)",
+    "(3 * KILOGRAM) - (500 * GRAM)",
+    "(Fraction(5, 2) * GRAM).quantize(1 * GRAM, ROUNDING.ROUND_HALF_UP)",
+    "(Decimal('2.5') * GRAM).quantize(1 * GRAM, ROUNDING.ROUND_HALF_EVEN)",
+    "(Fraction(13, 10) * GRAM).quantize(-1 * GRAM, ROUNDING.ROUND_HALF_DOWN)",
+    "(Decimal('12.345') * KILOGRAM).quantize(Decimal('0.10') * KILOGRAM, ROUNDING.ROUND_FLOOR)",
+    "(0 * CELSIUS).convert(KELVIN)", "(32 * FAHRENHEIT).convert(CELSIUS)",
+    "(0 * CELSIUS) == (32 * FAHRENHEIT)", "(0 * KELVIN) < (1 * FAHRENHEIT)",
+    "Quantity('5 kHz')", "Quantity('2.5 km', METRE)", "Quantity('5 kHz', SECOND)",
+    "Quantity('1/3 m²')", "Quantity('7 µs', SECOND)",
+    "ExchangeRate(EUR, 1, USD, Decimal('1.25')).inverted()",
+    "ExchangeRate(EUR, 100, JPY, Decimal('162.5')).inverted()",
+    "ExchangeRate(EUR, 1, JPY, Decimal('162.5')).inverted()",
+    "ExchangeRate(EUR, 1, USD, Decimal('1.25')) * ExchangeRate(USD, 1, JPY, 150)",
+    "hash(ExchangeRate(USD, 1, EUR, Decimal('0.9683'))) == hash(ExchangeRate(USD, 100, EUR, Decimal('96.83')))",
+    "(3 * KILOMETRE) * (2 * MILLIGRAM)" if False else "(3 * KILOMETRE) / (2 * HOUR)",
+    "(2 * HOUR) / (5 * KILOMETRE)", "(2 * SECOND) * (3 * KILOHERTZ)",
+    "KILOMETRE < MILE", "METRE > MILLIMETRE", "MILLIMETRE < METRE",
+]
+OPS_MODE = [
+    "Fraction(1, 16) * BYTE", "Money(Decimal('2.675'), EUR)", "Money(2.675, EUR)",
+    "(Fraction(5, 2) * GRAM).quantize(1 * GRAM)",
+    "(Decimal('2.5') * GRAM).quantize(1 * GRAM)",
+    "(Fraction(7, 2) * GRAM).quantize(1 * GRAM)",
+    "(10 * BIT).allocate([1, 1, 1])", "(1 * BYTE) / 3", "(3 * BIT) * Fraction(1, 2)",
+    "Money(Decimal('0.125'), EUR) + Money(Decimal('0.125'), EUR)",
+    "(5 * EUR) * ExchangeRate(EUR, 1, USD, Decimal('1.2345'))",
+    "round(Decimal('2.5') * KILOGRAM)", "ExchangeRate(EUR, 3, USD, Decimal('1.0000005'))",
+]
+MODES2 = ["ROUND_HALF_EVEN", "ROUND_CEILING", "ROUND_HALF_UP"]
+
+
+def _script2(root, steps):
+    body = PRELUDE2 % dict(root=root)
+    for kind, x in steps:
+        if kind == "mode":
+            body += f"set_dflt_rounding_mode(ROUNDING.{x})\n"
+        else:
+            body += f"ev({x!r}, lambda: {x})\n"
+    body += "print(json.dumps(OUT))\n"
+    return body
+
+
+def general_histories(job, root):
+    rng = job.rng
+    quick = job.tier != "thorough"
+    ops = OPS_FIXED + OPS_MODE
+    # canonical value of every operation alone in a fresh interpreter, per mode
+    canon = {}
+    from concurrent.futures import ThreadPoolExecutor
+    work = [(m, o) for m in MODES2 for o in ops
+            if o in OPS_MODE or m == MODES2[0]]
+
+    def one(mo):
+        m, o = mo
+        return mo, run_script(_script2(root, [("mode", m), ("op", o)]))[0][1]
+    with ThreadPoolExecutor(max_workers=12) as tpe:
+        for (m, o), v in tpe.map(one, work):
+            canon[(m, o)] = v
+    n_hist = 6 if quick else 16
+    for h in range(n_hist):
+        steps, mode = [], MODES2[0]
+        modes_at = []
+        for _ in range(90 if quick else 140):
+            if rng.random() < 0.12:
+                mode = rng.choice(MODES2)
+                steps.append(("mode", mode))
+            else:
+                steps.append(("op", rng.choice(ops)))
+                modes_at.append(mode)
+        res = run_script(_script2(root, steps))
+        for (label, got), m in zip(res, modes_at):
+            exp = canon[(m if label in OPS_MODE else MODES2[0], label)]
+            job.case("history/same-as-in-a-fresh-interpreter", (h, label, m),
+                     got == exp, got, exp)
